@@ -1159,8 +1159,12 @@ def i_DIV(i, fmap):
     m, d = {8: (al, ah), 16: (ax, dx), 32: (eax, edx)}[src.size]
     md_ = composer([m, d])
     s_ = src.zeroextend(md_.size)
-    q_ = fmap(md_ / s_)
-    r_ = fmap(md_ % s_)
+    if fmap(src == 0):
+        # divide error (#DE, not modelled): quotient and remainder are unknown
+        q_ = r_ = top(md_.size)
+    else:
+        q_ = fmap(md_ / s_)
+        r_ = fmap(md_ % s_)
     fmap[d] = r_[0 : d.size]
     fmap[m] = q_[0 : m.size]
 
